@@ -3215,19 +3215,24 @@ RESUME_VALIDATE_CERTS:
         rc = -1;  /* Force the check on existence of user callback */
     }
 
-    if (rc < 0)
+    /*  A failure is a negative return code of the validator OR a failure verdict
+        recorded on one of the certificates (date, keyUsage, authorityKeyIdentifier
+        failures come with rc == 0), which the walk above has turned into an alert */
+    if (rc < 0 || ssl->err != SSL_ALERT_NONE)
     {
         psTraceInfo("WARNING: cert did not pass internal validation test\n");
+        /*  ssl->err should have been set correctly above but catch
+            any missed cases with the generic BAD_CERTIFICATE alert, also
+            for the user callback: it must never be told "no alert" about
+            a chain that failed internal validation */
+        if (ssl->err == SSL_ALERT_NONE)
+        {
+            ssl->err = SSL_ALERT_BAD_CERTIFICATE;
+        }
         /*      Cert auth failed.  If there is no user callback issue fatal alert
             because there will be no intervention to give it a second look. */
         if (ssl->sec.validateCert == NULL)
         {
-            /*  ssl->err should have been set correctly above but catch
-                any missed cases with the generic BAD_CERTIFICATE alert */
-            if (ssl->err == SSL_ALERT_NONE)
-            {
-                ssl->err = SSL_ALERT_BAD_CERTIFICATE;
-            }
             return MATRIXSSL_ERROR;
         }
     }
